@@ -208,9 +208,36 @@ pub fn map_refs(v: &Variant, f: &mut dyn FnMut(Ref) -> Ref) -> Variant {
 /// Build the real DOM: `WeakDom::new(InstanceBuilder::new("DataModel"))`, every `parent 0` node under the
 /// root, the node of label L with referent `ref_of(L)`; Ref values (synthetic, by label) are rewritten
 /// with `ref_of` too.  `perm` permutes the property insertion order of each node (None = as listed).
-pub fn build_dom_with(f: &Forest, ref_of: &mut dyn FnMut(u64) -> Ref, mut perm: Option<&mut Rng>) -> WeakDom {
+pub fn build_dom_with(f: &Forest, ref_of: &mut dyn FnMut(u64) -> Ref, perm: Option<&mut Rng>) -> WeakDom {
+    build_dom_history(f, ref_of, perm, false)
+}
+
+/// the same logical DOM reached through a longer history when `detour` is set: a scratch copy of the whole forest (other Refs,
+/// the same names and property values, UniqueIds included) is inserted first and destroyed again through its top-level instances,
+/// then the forest itself is inserted.  A correct WeakDom ends in the same content either way (destroy frees the ids it held).
+pub fn build_dom_history(f: &Forest, ref_of: &mut dyn FnMut(u64) -> Ref, mut perm: Option<&mut Rng>, detour: bool) -> WeakDom {
     let mut dom = WeakDom::new(InstanceBuilder::new("DataModel"));
     let root = dom.root_ref();
+    if detour {
+        let mut scratch: HashMap<u64, Ref> = HashMap::new();
+        let mut tops = Vec::new();
+        for n in &f.nodes {
+            let r = *scratch.entry(n.label).or_insert_with(Ref::new);
+            let mut b = InstanceBuilder::new(n.class.as_str()).with_referent(r).with_name(n.name.as_str());
+            for (k, v) in &n.props {
+                let v2 = map_refs(v, &mut |_| Ref::none());
+                b.add_property(k.as_str(), v2);
+            }
+            let parent = if n.parent == 0 { root } else { *scratch.get(&n.parent).unwrap_or(&root) };
+            if parent == root {
+                tops.push(r);
+            }
+            dom.insert(parent, b);
+        }
+        for t in tops {
+            dom.destroy(t);
+        }
+    }
     let mut placed: HashMap<u64, Ref> = HashMap::new();
     for n in &f.nodes {
         let r = ref_of(n.label);
